@@ -648,6 +648,23 @@ func copies(b *harness.B, c *chaingen.Chain, s sample) {
 			b.Violate("C09/copy-shares-memory/"+kind+"/write-through", kind+": writing through the copy changed the original", wit)
 		}
 	}
+	// the same for an element whose proof has been emptied but still owns its array (what walking an element back to
+	// a state in which it is a tree of its own leaves behind): the copy's proof grows in memory of its own
+	emptied := func(kind string, orig any, se *types.StateElement, mk func() *types.StateElement) {
+		if cap(se.MerkleProof) == 0 {
+			return
+		}
+		se.MerkleProof = se.MerkleProof[:0]
+		before := probe.Fingerprint(orig)
+		cse := mk()
+		cse.MerkleProof = append(cse.MerkleProof, types.Hash256{0xEE, 0xEE})
+		b.Eval(1)
+		b.Count("copies_of_elements_with_an_emptied_proof_checked", 1)
+		b.Distinct("copy", kind, "emptied-proof")
+		if probe.Fingerprint(orig) != before {
+			b.Violate("C09/copy-shares-memory/"+kind+"/emptied-proof/write-through", kind+": the copy of an element whose proof is empty but has capacity grows into the original's array", wit)
+		}
+	}
 	for i := range s.b.V2Transactions() {
 		t := s.b.V2.Transactions[i]
 		o := chaingen.CloneV2(t) // private original
@@ -658,6 +675,8 @@ func copies(b *harness.B, c *chaingen.Chain, s sample) {
 			e := chaingen.CloneV2(t).SiacoinInputs[k].Parent
 			ec := e.Copy()
 			try("SiacoinElement.Copy", &e, &ec)
+			e2 := chaingen.CloneV2(t).SiacoinInputs[k].Parent
+			emptied("SiacoinElement.Copy", &e2, &e2.StateElement, func() *types.StateElement { c := e2.Copy(); return &c.StateElement })
 			break
 		}
 		for k := range t.SiafundInputs {
@@ -670,6 +689,10 @@ func copies(b *harness.B, c *chaingen.Chain, s sample) {
 			e := chaingen.CloneV2(t).FileContractRevisions[k].Parent
 			ec := e.Copy()
 			try("V2FileContractElement.Copy", &e, &ec)
+			e2 := chaingen.CloneV2(t).FileContractRevisions[k].Parent
+			emptied("V2FileContractElement.Copy", &e2, &e2.StateElement, func() *types.StateElement { c := e2.Copy(); return &c.StateElement })
+			o2 := chaingen.CloneV2(t)
+			emptied("V2Transaction.DeepCopy", &o2, &o2.FileContractRevisions[k].Parent.StateElement, func() *types.StateElement { c := o2.DeepCopy(); return &c.FileContractRevisions[k].Parent.StateElement })
 			break
 		}
 		for k := range t.FileContractResolutions {
@@ -677,6 +700,8 @@ func copies(b *harness.B, c *chaingen.Chain, s sample) {
 				e := sp.ProofIndex
 				ec := e.Copy()
 				try("ChainIndexElement.Copy", &e, &ec)
+				e2 := sp.ProofIndex.Copy()
+				emptied("ChainIndexElement.Copy", &e2, &e2.StateElement, func() *types.StateElement { c := e2.Copy(); return &c.StateElement })
 			}
 		}
 	}
